@@ -1,8 +1,9 @@
 //! Check definitions: which scenario families and which oracles decide each property.
 
-use crate::adversary::Hostile;
+use crate::adversary::{Hostile, Rewriter};
 use crate::gen::*;
 use crate::oracle_transport::*;
+use crate::oracle_wire::*;
 use crate::plan::*;
 use crate::rng::Rng;
 use crate::runner::*;
@@ -75,11 +76,11 @@ pub fn c01() -> CheckDef {
     CheckDef {
         property: "C01",
         families: vec![
-            Family { name: "a_mixed", world: "A", weight: 4, gen: c01_gen_mixed, oracles: c01_oracles, adversary: None,
+            Family { name: "a_mixed", world: "A", weight: 4, gen: c01_gen_mixed, oracles: c01_oracles, adversary: None, keep_workload: false,
                 what: "two half connections, both directions, all modes, up to 64 channels, drop/dup/reorder/1-4 bit flips/blackouts/type-targeted loss in phases, random cadences and stalls" },
-            Family { name: "a_wrap", world: "A", weight: 3, gen: c01_gen_wrap, oracles: c01_oracles, adversary: None,
+            Family { name: "a_wrap", world: "A", weight: 3, gen: c01_gen_wrap, oracles: c01_oracles, adversary: None, keep_workload: false,
                 what: "same, initial frame and packet ids within two windows of the 2^32 / 2^20 wrap-around and enough traffic to cross it" },
-            Family { name: "a_small_windows", world: "A", weight: 3, gen: c01_gen_small, oracles: c01_oracles, adversary: None,
+            Family { name: "a_small_windows", world: "A", weight: 3, gen: c01_gen_small, oracles: c01_oracles, adversary: None, keep_workload: false,
                 what: "same, window sizes 1..64 so that windows fill and resynchronise constantly" },
         ],
         panic_is_violation: no_panics,
@@ -137,7 +138,7 @@ fn c02_oracles(plan: &Plan) -> Vec<Box<dyn Oracle>> {
 pub fn c02() -> CheckDef {
     CheckDef {
         property: "C02",
-        families: vec![Family { name: "a_fault_then_fair", world: "A", weight: 1, gen: c02_gen, oracles: c02_oracles, adversary: None,
+        families: vec![Family { name: "a_fault_then_fair", world: "A", weight: 1, gen: c02_gen, oracles: c02_oracles, adversary: None, keep_workload: false,
             what: "finite fault prefix (loss/dup/reorder/flips/blackouts/ack- or sync-targeted loss, stalls) then a fair link (<= 200 ms, stepping <= 200 ms); safety on every delivery, liveness at quiescence or after T_live = 900 s + 128 s x 80 frames" }],
         panic_is_violation: no_panics,
         hang_is_violation: false,
@@ -245,11 +246,11 @@ pub fn c03() -> CheckDef {
     CheckDef {
         property: "C03",
         families: vec![
-            Family { name: "a_hostile_peer", world: "A", weight: 5, gen: c03_gen_hostile_peer, oracles: states_only, adversary: Some(c03_adv_peer),
+            Family { name: "a_hostile_peer", world: "A", weight: 5, gen: c03_gen_hostile_peer, oracles: states_only, adversary: Some(c03_adv_peer), keep_workload: false,
                 what: "victim half connection vs a connected hostile peer: CRC-valid data/sync/ack frames with boundary, near-valid (computed from the victim's own frames) and random fields, fragment counts up to 65535, handshake/disconnect frames, random bytes, replays; interleaved with send/step/flush at arbitrary times incl. 0 us spacing" },
-            Family { name: "a_hostile_mitm", world: "A", weight: 3, gen: c03_gen_mitm, oracles: states_only, adversary: Some(c03_adv_mitm),
+            Family { name: "a_hostile_mitm", world: "A", weight: 3, gen: c03_gen_mitm, oracles: states_only, adversary: Some(c03_adv_mitm), keep_workload: false,
                 what: "genuine pair under faults plus a hostile middlebox injecting crafted frames at both ends" },
-            Family { name: "a_genuine", world: "A", weight: 2, gen: c03_gen_genuine, oracles: states_only, adversary: None,
+            Family { name: "a_genuine", world: "A", weight: 2, gen: c03_gen_genuine, oracles: states_only, adversary: None, keep_workload: false,
                 what: "genuine pair only: loss, blackouts, delay, stalls (panics and hangs reachable without any forged frame)" },
         ],
         panic_is_violation: all_panics,
@@ -263,6 +264,141 @@ pub fn c03() -> CheckDef {
             "simulation profile = release + debug assertions + overflow checks: a failing debug_assert or arithmetic overflow inside uflow counts as a panic (debug builds of applications would hit it)",
             "the hostile peer cannot guess 32-bit handshake nonces it never saw; as a connected peer it knows the starting sequence numbers",
             "a hang is reported only after it reproduced in a child process",
+        ],
+    }
+}
+
+
+// ------------------------------------------------------------------------------------------ C04
+
+/// Swept dimension: the payload length is a deterministic function of the run index, so the whole
+/// boundary set is covered in every tier; fault history and everything else is sampled.
+fn c04_plan(scenario: &str, seed: u64, run: u64, thorough: bool, rewrite: bool) -> Plan {
+    let mut r = Rng::keyed(&[seed, run, 0xc04]);
+    let lens = boundary_lengths();
+    let slot = (run / 2) as usize;
+    let swept: u32 = if slot % 40 == 39 {
+        // occasionally the maximum: a full megabyte (691 fragments), or a random large size
+        if r.chance(0.5) { 1_000_000 } else { r.range(70_000, 1_000_000) as u32 }
+    } else {
+        lens[slot % lens.len()]
+    };
+    let mut plan = Plan::new("C04", scenario, seed, run);
+    plan.fate_seed = Some(crate::rng::key(&[seed, run, 0xfa7e]));
+    let mut setup = ASetup::sample(&mut r, run % 5 == 0, false);
+    for i in 0..2 {
+        setup.alloc[i] = setup.alloc[i].max(swept as u64 + r.range(0, 3) * FRAG);
+        if swept > 70_000 {
+            setup.bandwidth[i] = setup.bandwidth[i].max(500_000);
+            setup.win_frame[i] = setup.win_frame[i].max(64);
+        }
+    }
+    plan.endpoints = setup.endpoints();
+    plan.push(0, 0, Op::Create { ep: 0 });
+    plan.push(0, 1, Op::Create { ep: 1 });
+    let latency = sample_latency(&mut r).min(100_000);
+    let fault_until = r.range(2, if thorough { 20 } else { 8 }) * 1_000_000;
+    for (from, to) in [(0usize, 1usize), (1, 0)] {
+        let mut rule = faulty_rule(&mut r, latency, !rewrite);
+        // fragment permutation: heavy jitter more often than elsewhere
+        if r.chance(0.5) {
+            rule.jitter_us = r.log_range(1000, 500_000);
+        }
+        if rewrite {
+            // order-preserving lossy link: a fragment that arrived was also accepted, so the
+            // middlebox knows which packets are in progress at the receiver
+            rule.fifo = true;
+            rule.dup_p = 0.0;
+            rule.reorder_p = 0.0;
+        }
+        plan.push(0, 2, Op::Link { from: Some(from), to: Some(to), rule });
+    }
+    plan.push(fault_until, 2, Op::Link { from: None, to: None, rule: clean_rule(latency) });
+    plan.push(fault_until, 3, Op::Mark { name: "heal".into() });
+    let mut tag = 0u32;
+    let mut short_ch = 0;
+    let mut tiny_mode = 0;
+    let mut bytes_total = 0u64;
+    for ep in 0..2 {
+        let max_len = ((setup.alloc[1 - ep] + FRAG - 1) / FRAG * FRAG).min(20_000);
+        let mut w = Workload::sample(&mut r, 1, max_len);
+        w.packets = r.range(5, 60);
+        if ep == 0 {
+            short_ch = w.short_ch;
+            tiny_mode = w.tiny_mode;
+        } else {
+            w.channels = w.channels.max(short_ch + 1);
+            w.short_ch = short_ch;
+            w.tiny_mode = tiny_mode;
+        }
+        if rewrite {
+            // several multi-fragment packets in flight, small ones in between
+            w.mode_w = [0, 1, 2, 3];
+        }
+        tag += w.sends(&mut r, &mut plan, ep, None, 0, fault_until, tag);
+        // the swept packet(s), interleaved with the others on the same and other channels
+        let copies = r.range(1, 3);
+        for _ in 0..copies {
+            let mode = if swept < 4 { tiny_mode } else { *r.pick(&[MODE_RELIABLE, MODE_RELIABLE, MODE_PERSISTENT, MODE_UNRELIABLE]) };
+            let ch = if swept < 12 { short_ch } else { r.below(w.channels as u64) as u8 };
+            plan.push(r.range(0, fault_until), 0x4000_0000 + tag, Op::Send { ep, to: None, ch, mode, len: swept, tag });
+            tag += 1;
+            bytes_total += swept as u64;
+        }
+        let cad = Cadence::sample(&mut r);
+        cad.steps(&mut r, &mut plan, ep, 0, fault_until, 6000, true);
+        let period = cad.period_us.clamp(1000, 100_000);
+        plan.push(fault_until + r.below(period), r.u32() | 1, Op::StepEvery { ep, period_us: period, until_us: u64::MAX });
+    }
+    plan.params.insert("short_ch".into(), short_ch as f64);
+    plan.params.insert("expect_live".into(), 1.0);
+    plan.params.insert("end_when_quiescent".into(), 1.0);
+    plan.params.insert("swept_len".into(), swept as f64);
+    let frames = bytes_total / 1448 + 120;
+    plan.end_us = fault_until + (900 + 128 * frames.min(400)) * 1_000_000;
+    for t in plan.timeline.iter_mut() {
+        if let Op::StepEvery { until_us, .. } = &mut t.op {
+            *until_us = plan.end_us;
+        }
+    }
+    if rewrite {
+        plan.adversary = "rewriter".into();
+    }
+    plan.sort();
+    plan
+}
+fn c04_gen_lengths(seed: u64, run: u64, thorough: bool) -> Plan {
+    c04_plan("a_lengths", seed, run, thorough, false)
+}
+fn c04_gen_rewrite(seed: u64, run: u64, thorough: bool) -> Plan {
+    c04_plan("a_rewrite", seed, run, thorough, true)
+}
+fn c04_oracles(plan: &Plan) -> Vec<Box<dyn Oracle>> {
+    with_states(vec![Box::new(TransportOracle::new("C04", TransportClauses { order: true, frame_size: true, reliable_live: true, ..Default::default() }, plan))])
+}
+fn c04_adv(plan: &Plan) -> Option<Box<dyn Adversary>> {
+    Some(Box::new(Rewriter::new(plan)))
+}
+
+pub fn c04() -> CheckDef {
+    CheckDef {
+        property: "C04",
+        families: vec![
+            Family { name: "a_lengths", world: "A", weight: 1, gen: c04_gen_lengths, oracles: c04_oracles, adversary: None, keep_workload: false,
+                what: "payload length swept over {0,1,2,11..13,63..65,255..257, k*1448-2..k*1448+2 for k=1..8,16,45, 1 MB} by run index; fragments permuted, duplicated, partially lost and resent, interleaved with other packets, flush budgets that cut packets; then a clean link until everything Reliable has arrived" },
+            Family { name: "a_rewrite", world: "A", weight: 1, gen: c04_gen_rewrite, oracles: c04_oracles, adversary: Some(c04_adv), keep_workload: true,
+                what: "same sweep, plus a hostile middlebox that appends to genuine frames a forged fragment for a packet in progress whose header disagrees with the first fragment seen (last-fragment id, channel or parent leads)" },
+        ],
+        panic_is_violation: no_panics,
+        hang_is_violation: false,
+        quick_runs: 2000,
+        thorough_runs: 40_000,
+        rule: "one case = one simulated run; the swept length is (run index / 2) mod |boundary set|; distinct = distinct run digest; non-trivial = at least 10 packets delivered",
+        real_code: REAL_A,
+        stubs: STUB_A,
+        assumptions: vec![
+            "every delivered packet is compared byte for byte with its submission (tagged header + keyed pseudo-random body)",
+            "the forged fragments target only packets whose first genuine fragment has already arrived, as the property states",
         ],
     }
 }
@@ -341,7 +477,7 @@ fn c05_oracles(plan: &Plan) -> Vec<Box<dyn Oracle>> {
 pub fn c05() -> CheckDef {
     CheckDef {
         property: "C05",
-        families: vec![Family { name: "a_ideal", world: "A", weight: 1, gen: c05_gen, oracles: c05_oracles, adversary: None,
+        families: vec![Family { name: "a_ideal", world: "A", weight: 1, gen: c05_gen, oracles: c05_oracles, adversary: None, keep_workload: false,
             what: "order-preserving loss-free link (fixed or varying latency 0.05 ms..3 s), both directions, bursts beyond the flush budget and both windows, arbitrary cadences and stalls, all initial ids; delivered sequence must equal submitted sequence minus sender-dropped TimeSensitive packets" }],
         panic_is_violation: no_panics,
         hang_is_violation: false,
@@ -351,6 +487,233 @@ pub fn c05() -> CheckDef {
         real_code: REAL_A,
         stubs: STUB_A,
         assumptions: vec!["fault-free configuration: the strictest expectation, nothing is relaxed", "on paths above 150 ms one-way the workload is bounded to 64 frames per direction (large-RTT throughput is C11's concern)"],
+    }
+}
+
+
+// ------------------------------------------------------------------------------------------ C06
+
+fn c06_gen_sender(seed: u64, run: u64, thorough: bool) -> Plan {
+    let mut r = Rng::keyed(&[seed, run, 0xc06]);
+    let horizon = r.range(5, if thorough { 60 } else { 25 }) * 1_000_000;
+    let sc = AScenario {
+        near_wrap: run % 4 == 0,
+        small_windows: run % 2 == 0,
+        packets: r.range(100, if thorough { 3000 } else { 800 }),
+        send_window_us: horizon / 2,
+        fault_until_us: horizon,
+        horizon_us: horizon,
+        allow_flips: false,
+        allow_stalls: true,
+        phases: r.range(1, 3),
+    };
+    world_a_general("C06", "a_sender_respects", seed, run, &sc, false)
+}
+fn c06_oracles_sender(_plan: &Plan) -> Vec<Box<dyn Oracle>> {
+    with_states(vec![Box::new(SenderLimitOracle::new("C06"))])
+}
+
+fn c06_gen_hostile(seed: u64, run: u64, thorough: bool, flood: bool) -> Plan {
+    let mut r = Rng::keyed(&[seed, run, 0xc06]);
+    let mut plan = Plan::new("C06", if flood { "a_ack_queue_flood" } else { "a_hostile_stream" }, seed, run);
+    plan.fate_seed = Some(crate::rng::key(&[seed, run, 0xfa7e]));
+    let mut setup = ASetup::sample(&mut r, run % 3 == 0, run % 5 == 0);
+    // receiver limits from 1 byte to 4 MB
+    setup.alloc[0] = match r.below(6) {
+        0 => r.range(1, 1448),
+        1 => r.range(1449, 30_000),
+        2 => r.range(30_000, 300_000),
+        3 => 1_000_000,
+        4 => r.range(1_000_000, 4_000_000),
+        _ => r.range(1, 4_000_000),
+    };
+    if flood {
+        // a victim that can hardly send acknowledgements
+        setup.bandwidth[0] = 1472;
+        setup.win_frame[1] = 4096;
+    }
+    let mut eps = setup.endpoints();
+    eps[1].kind = EndpointKind::Raw;
+    plan.endpoints = eps;
+    plan.push(0, 0, Op::Create { ep: 0 });
+    plan.push(0, 1, Op::Create { ep: 1 });
+    plan.push(0, 2, Op::Link { from: None, to: None, rule: clean_rule(1000) });
+    let horizon = if flood { 60_000_000 } else { r.range(2, if thorough { 30 } else { 10 }) * 1_000_000 };
+    // the application reads at any cadence, including (almost) never
+    let mut cad = Cadence::sample(&mut r);
+    if flood {
+        cad.period_us = 5_000;
+        cad.stall_p = 0.0;
+    } else if run % 7 == 3 {
+        cad.period_us = horizon / 3;
+    }
+    cad.flush_after_step_p = 0.0;
+    cad.steps(&mut r, &mut plan, 0, 0, horizon, 20_000, !flood);
+    let mut t = 0;
+    while t < horizon {
+        plan.push(t, 5, Op::Step { ep: 1 });
+        t += 1_000_000;
+    }
+    plan.adversary = "hostile_stream".into();
+    plan.params.insert("hostile".into(), 1.0);
+    plan.params.insert("hostile_big".into(), 1.0);
+    plan.params.insert("hostile_focus".into(), if flood { 2.0 } else { 1.0 });
+    plan.params.insert("hostile_max".into(), if flood { 150_000.0 } else { r.range(100, 3000) as f64 });
+    plan.end_us = horizon;
+    plan.sort();
+    plan
+}
+fn c06_gen_hostile_stream(seed: u64, run: u64, thorough: bool) -> Plan {
+    c06_gen_hostile(seed, run, thorough, false)
+}
+fn c06_gen_flood(seed: u64, run: u64, thorough: bool) -> Plan {
+    c06_gen_hostile(seed, run, thorough, true)
+}
+fn c06_oracles_receiver(plan: &Plan) -> Vec<Box<dyn Oracle>> {
+    with_states(vec![Box::new(ReceiverMemoryOracle::new("C06", 0, plan))])
+}
+fn c06_adv(plan: &Plan) -> Option<Box<dyn Adversary>> {
+    let mut h = Hostile::new(plan, vec![(0, 1)]);
+    if plan.param("hostile_focus", 0.0) == 2.0 {
+        h.set_rate(1.0, 40);
+    } else {
+        h.set_rate(1.0, 30);
+    }
+    Some(Box::new(h))
+}
+
+pub fn c06() -> CheckDef {
+    CheckDef {
+        property: "C06",
+        families: vec![
+            Family { name: "a_sender_respects", world: "A", weight: 10, gen: c06_gen_sender, oracles: c06_oracles_sender, adversary: None, keep_workload: false,
+                what: "genuine pairs, receive limits 1 byte..6 MB, windows 1..4096, all ack schedules and losses: packets taken from the send queue and not yet below the accepted window base stay within the advertised (fragment-rounded) allocation and 4096 packets; the genuine receiver never discards a packet for lack of memory" },
+            Family { name: "a_hostile_stream", world: "A", weight: 10, gen: c06_gen_hostile_stream, oracles: c06_oracles_receiver, adversary: Some(c06_adv), keep_workload: false,
+                what: "victim receiver (limit 1 byte..4 MB) against a hostile stream: fragment counts up to 65536, ids inside/outside the window, never-completing packets, inconsistent parent leads, any read cadence; heap bytes attributed to the victim (allocator measurement) stay within the rounded limit plus a constant bookkeeping budget" },
+            Family { name: "a_ack_queue_flood", world: "A", weight: 1, gen: c06_gen_flood, oracles: c06_oracles_receiver, adversary: Some(c06_adv), keep_workload: false,
+                what: "victim with a 1472 B/s ceiling flooded with empty data frames whose ids are 32 apart, so that every frame opens a new acknowledgement group faster than they can be sent" },
+        ],
+        panic_is_violation: no_panics,
+        hang_is_violation: false,
+        quick_runs: 2100,
+        thorough_runs: 42_000,
+        rule: "one case = one simulated run; distinct = distinct run digest; non-trivial = at least 10 limit checks (sender half) or 10 heap measurements after hostile traffic (receiver half)",
+        real_code: REAL_A,
+        stubs: STUB_A,
+        assumptions: vec![
+            "receiver memory is measured by the harness allocator (requested bytes allocated inside calls into the victim, minus its fresh-connection baseline, its acknowledgement queue capacity and its own send buffer); bookkeeping budget 128 bytes per window slot + limit/64",
+            "the acknowledgement queue bound is 65536 groups: deliberately generous so that any fixed cap passes",
+        ],
+    }
+}
+
+// ------------------------------------------------------------------------------------------ C12
+
+fn c12_gen(seed: u64, run: u64, thorough: bool) -> Plan {
+    let mut r = Rng::keyed(&[seed, run, 0xc12]);
+    let horizon = r.range(5, if thorough { 60 } else { 25 }) * 1_000_000;
+    let sc = AScenario {
+        near_wrap: run % 5 == 0,
+        small_windows: run % 3 == 0,
+        packets: r.range(50, if thorough { 1500 } else { 500 }),
+        send_window_us: horizon * 2 / 3,
+        fault_until_us: horizon,
+        horizon_us: horizon,
+        allow_flips: false,
+        allow_stalls: true,
+        phases: r.range(1, 3),
+    };
+    let mut plan = world_a_general("C12", "a_modes", seed, run, &sc, false);
+    // flush budgets that cut packets: extra flush() calls right after sends
+    let extra: Vec<TimedOp> = plan
+        .timeline
+        .iter()
+        .filter_map(|t| match &t.op {
+            Op::Send { ep, .. } if r.chance(0.15) => Some(TimedOp { t_us: t.t_us + r.below(3000), rank: r.u32() | 1, op: Op::Flush { ep: *ep } }),
+            _ => None,
+        })
+        .collect();
+    plan.timeline.extend(extra);
+    plan.sort();
+    plan
+}
+fn c12_oracles(_plan: &Plan) -> Vec<Box<dyn Oracle>> {
+    with_states(vec![Box::new(ModeOracle::new("C12"))])
+}
+
+pub fn c12() -> CheckDef {
+    CheckDef {
+        property: "C12",
+        families: vec![Family { name: "a_modes", world: "A", weight: 1, gen: c12_gen, oracles: c12_oracles, adversary: None, keep_workload: false,
+            what: "mixed modes, packets cut across flushes, acks arriving between fragments, losses and duplicates; every (packet id, fragment id) occurrence on the wire is attributed to its submission: Unreliable/TimeSensitive at most once, TimeSensitive begun by the first step() after send(), nothing re-emitted after its acknowledgement was processed or after the receiver moved past the packet" }],
+        panic_is_violation: no_panics,
+        hang_is_violation: false,
+        quick_runs: 2000,
+        thorough_runs: 50_000,
+        rule: "one case = one simulated run; distinct = distinct run digest; non-trivial = at least 10 fragments seen on the wire",
+        real_code: REAL_A,
+        stubs: STUB_A,
+        assumptions: vec![
+            "the retransmit-until-acknowledged half is decided as bounded liveness by C02 (Reliable) and by quiescence (Persistent): this check decides the at-most-once / never-again clauses on every emission",
+            "'acknowledgement processed' and 'receiver moved past' are taken from the trace taps FrameAcked and PacketBaseAdvanced; an emission in a later call than the tap is a violation",
+        ],
+    }
+}
+
+// ------------------------------------------------------------------------------------------ C13
+
+fn c13_gen(seed: u64, run: u64, thorough: bool) -> Plan {
+    let mut r = Rng::keyed(&[seed, run, 0xc13]);
+    let horizon = r.range(5, if thorough { 60 } else { 20 }) * 1_000_000;
+    let sc = AScenario {
+        near_wrap: false,
+        small_windows: run % 4 == 0,
+        packets: r.range(100, if thorough { 3000 } else { 1000 }),
+        send_window_us: horizon / 3,
+        fault_until_us: horizon,
+        horizon_us: horizon,
+        allow_flips: false,
+        allow_stalls: true,
+        phases: r.range(1, 3),
+    };
+    let mut plan = world_a_general("C13", "a_rate", seed, run, &sc, false);
+    // repeated flushes per step and right around steps
+    let extra: Vec<TimedOp> = plan
+        .timeline
+        .iter()
+        .filter_map(|t| match &t.op {
+            Op::Step { ep } if r.chance(0.2) => {
+                let dt = if r.chance(0.5) { 0 } else { r.below(2000) };
+                Some(TimedOp { t_us: if r.chance(0.5) { t.t_us + dt } else { t.t_us.saturating_sub(dt) }, rank: r.u32() | 1, op: Op::Flush { ep: *ep } })
+            }
+            _ => None,
+        })
+        .collect();
+    plan.timeline.extend(extra);
+    plan.sort();
+    plan
+}
+fn c13_oracles(_plan: &Plan) -> Vec<Box<dyn Oracle>> {
+    with_states(vec![Box::new(RateOracle::new("C13"))])
+}
+
+pub fn c13() -> CheckDef {
+    CheckDef {
+        property: "C13",
+        families: vec![Family { name: "a_rate", world: "A", weight: 1, gen: c13_gen, oracles: c13_oracles, adversary: None, keep_workload: false,
+            what: "ceilings 1472 B/s..50 MB/s on either side, backlogs of hundreds to thousands of packets, cadences from several flushes per step to seconds between steps, pauses, loss and feedback patterns; every window of data/sync/ack frames is checked against ceiling x (duration + largest RTT estimate held) + 1472" }],
+        panic_is_violation: no_panics,
+        hang_is_violation: false,
+        quick_runs: 2000,
+        thorough_runs: 50_000,
+        rule: "one case = one simulated run; distinct = distinct run digest; non-trivial = at least 20 frames emitted",
+        real_code: REAL_A,
+        stubs: STUB_A,
+        assumptions: vec![
+            "handshake and disconnect frames are connection management and not part of the credit scheme: excluded",
+            "all windows of <= 256 frames are checked exactly with the largest RTT estimate held inside the window; longer windows by a running-minimum scan with the run-wide largest estimate (both implied by the property)",
+            "times are the sender's own (possibly skewed) clock",
+        ],
     }
 }
 
@@ -389,7 +752,7 @@ fn c20_oracles(plan: &Plan) -> Vec<Box<dyn Oracle>> {
 pub fn c20() -> CheckDef {
     CheckDef {
         property: "C20",
-        families: vec![Family { name: "a_buffer", world: "A", weight: 1, gen: c20_gen, oracles: c20_oracles, adversary: None,
+        families: vec![Family { name: "a_buffer", world: "A", weight: 1, gen: c20_gen, oracles: c20_oracles, adversary: None, keep_workload: false,
             what: "mixed traffic with many TimeSensitive packets, window and allocation stalls, ack loss; after every call send_buffer_size() must equal accepted - acknowledged - discarded" }],
         panic_is_violation: overflow_in_sender,
         hang_is_violation: false,
@@ -403,7 +766,7 @@ pub fn c20() -> CheckDef {
 }
 
 pub fn all() -> Vec<CheckDef> {
-    vec![c01(), c02(), c03(), c05(), c20()]
+    vec![c01(), c02(), c03(), c04(), c05(), c06(), c12(), c13(), c20()]
 }
 
 pub fn by_id(id: &str) -> Option<CheckDef> {
